@@ -410,9 +410,18 @@ def _multiplier_path(ctx, m, fn, th, rates, ic, binvar, incvar, _depth=0, _renam
 
     # path from the function body to the accumulation: loops and guards
     def path_to(stmts, target, acc):
+        from staticlib.guards import terminates
+
+        acc = list(acc)
         for st in stmts:
             if st is target:
                 return acc
+            # guard clause before the site: `if c: continue` makes the rest of the block run under `not c`
+            if isinstance(st, ast.If) and not any(target is x for x in ast.walk(st)):
+                if terminates(st.body) and not (st.orelse and terminates(st.orelse)):
+                    acc.append(("if", st.test, False))
+                elif st.orelse and terminates(st.orelse):
+                    acc.append(("if", st.test, True))
             for blk, tag in ((getattr(st, "body", None), "body"), (getattr(st, "orelse", None), "orelse")):
                 if isinstance(blk, list) and any(target is x for b in blk for x in ast.walk(b)):
                     if isinstance(st, ast.For):
